@@ -58,6 +58,8 @@ def mkFloatCfg (kind : String) (kv : KV) (factor : Rat) : Option (Cfg F) :=
     pure (.emedian (← (kv.get "pre").bind FloatLike.parse) (← (kv.get "mid").bind FloatLike.parse)
       (← (kv.get "post").bind FloatLike.parse))
   | "alphabeta" => do pure (.alphaBeta (← (kv.get "alpha").bind FloatLike.parse) (← (kv.get "beta").bind FloatLike.parse))
+  | "differentiate_b" => some .differentiate
+  | "integrate_b" => some .integrate
   | "mean" => (kv.nat "N").map .mean
   | "meanvar" => (kv.nat "N").map .meanVar
   | "delay" => (kv.nat "N").map .delay
@@ -215,7 +217,29 @@ def looseKind : St F → Bool
   | .mean _ _ => true | .meanVar _ _ _ => true | .delay _ _ => true | .emeanVar _ _ => true | .kalman _ _ => true
   | _ => false
 
+/-- bit-for-bit equality of two float values (any NaN equals any NaN) -/
+def sameF (a b : F) : Bool := toBitsNat a == toBitsNat b || (FloatLike.isNaN a && FloatLike.isNaN b)
+
+/-- C15 at a float type, where each output is ONE operation of the sample type's own arithmetic on the inputs: the
+first difference `x[n] - x[n-1]` (0 for the first sample), the running sum folded from the left -/
+def specDiffF (h : List (List F)) (y : List F) : List Clause :=
+  let xs := fheads h
+  let e : F := match xs.reverse with
+    | x :: p :: _ => x - p
+    | _ => 0
+  match y with
+  | [o] => [clauseP "C15.first-difference" (sameF e o) (FloatLike.render e)]
+  | _ => []
+
+def specIntF (h : List (List F)) (y : List F) : List Clause :=
+  let e : F := (fheads h).foldl (· + ·) 0
+  match y with
+  | [o] => [clauseP "C15.running-sum" (sameF e o) (FloatLike.render e)]
+  | _ => []
+
 def specFloat (getPartnerInputs : Option (List F)) : St F → List (List F) → List F → Bool → List Clause
+  | .differentiate _, h, y, _ => specDiffF h y
+  | .integrate _, h, y, _ => specIntF h y
   | .ema _ _, h, y, _ => firstUnchanged "C13.first-sample-unchanged" h y
   | .emedian _ _ _ _, h, y, _ => firstUnchanged "C13.first-sample-unchanged" h y
   | .alphaBeta _ _ _, h, y, _ => firstUnchanged "C14.first-sample-unchanged" h y
@@ -228,7 +252,7 @@ def specFloat (getPartnerInputs : Option (List F)) : St F → List (List F) → 
 def fkindName : St F → String
   | .hampel _ _ _ => "hampel" | .convolve _ _ => "convolve" | .analyze _ _ _ _ => "analyze"
   | .synthesize _ _ _ _ => "synthesize" | .ema _ _ => "ema" | .emedian _ _ _ _ => "emedian"
-  | .alphaBeta _ _ _ => "alphabeta" | .mean _ _ => "mean" | .meanVar _ _ _ => "meanvar" | .delay _ _ => "delay"
+  | .alphaBeta _ _ _ => "alphabeta" | .differentiate _ => "differentiate" | .integrate _ => "integrate" | .mean _ _ => "mean" | .meanVar _ _ _ => "meanvar" | .delay _ _ => "delay"
   | .emeanVar _ _ => "emeanvar" | .kalman _ _ => "kalman" | _ => "float"
 
 /-- operations on one table of float instances -/
@@ -253,6 +277,7 @@ def stepFloatTable (tbl : List (Nat × FInst F)) (factor : Rat) (typeTag : Strin
     let xs ← args.mapM (FloatLike.parse (F := F))
     let implOut : Option (List F) := if impl == ["PANIC"] then none else impl.mapM FloatLike.parse
     let hist := inst.hist ++ [xs]
+    let hist := match inst.long with | some cap => hist.drop (hist.length - cap) | none => hist
     match inst.st.filter xs with
     | none => done tbl (report d op { model := "PANIC", impl := implS, kind := fkindName inst.st })
     | some (st', y) =>
@@ -268,9 +293,15 @@ def stepFloatTable (tbl : List (Nat × FInst F)) (factor : Rat) (typeTag : Strin
       let d := d.flag (if hist.length > 1 then "multi" else "first")
       let d := match clauses.find? (fun c => c.name == "C18.outlier-replaced") with | some _ => d.flag "hampel.outlier" | none => d
       let d := match clauses.find? (fun c => c.name == "C18.inlier-passes") with | some _ => d.flag "hampel.inlier" | none => d
-      done (put id { inst with st := st', hist := hist, last := some implOut, outs := inst.outs ++ [implOut.getD []] })
+      let outs := inst.outs ++ [implOut.getD []]
+      let outs := match inst.long with | some cap => outs.drop (outs.length - cap) | none => outs
+      done (put id { inst with st := st', hist := hist, last := some implOut, outs := outs })
         (report d op { model := if looseKind inst.st then implS else frenderOut (some y), impl := implS, clauses := clauses,
                        kind := fkindName inst.st })
+  | ["long", id, cap] => do
+    let id ← id.toNat?
+    let inst ← get id
+    done (put id { inst with long := some (← cap.toNat?) }) (report (d.flag "long-run") op { model := "ok", impl := implS })
   | ["cfg", id] => do
     let id ← id.toNat?
     let inst ← get id
